@@ -69,7 +69,7 @@ func (g G) drawAttrQ(label string, w *WorldCfg, sp int) *MsgSpec {
 func (g G) deviate(label string, m *MsgSpec) {
 	opts := []string{"dest-other-host", "dest-other-host", "issuer-absent", "issuer-empty", "issuer-other", "issuer-rogue", "issuer-lookalike", "issuer-case", "issuer-space",
 		"dest-other", "dest-foreign", "dest-case", "dest-upper", "dest-slash", "dest-scheme", "dest-empty",
-		"noid", "emptyid", "noversion", "emptyversion", "version11", "timelit", "window-past", "window-future", "encoding", "sigalg-nosig", "empty-request",
+		"noid", "emptyid", "noversion", "emptyversion", "version11", "timelit", "window-past", "window-future", "encoding", "sigalg-nosig", "empty-request", "double-encode",
 		"rogue-sp", "struct"}
 	if m.Kind == "attrq" {
 		opts = append(opts, "subj-unknown", "subj-absent", "subj-nonameid", "noquery", "envelope")
@@ -126,6 +126,8 @@ func (g G) deviate(label string, m *MsgSpec) {
 		} else {
 			m.HasNotBefore, m.NotBeforeNs = true, g.drawSpan(label+".fut")
 		}
+	case "double-encode":
+		m.Tamper = append(m.Tamper, Tamper{Op: "double_encode", S: g.pick(label+".de", "SAMLEncoding", "SAMLRequest", "SAMLRequest", "SigAlg", "Signature")})
 	case "encoding":
 		m.Tamper = append(m.Tamper, Tamper{Op: "encoding", S: g.pick(label+".enc", "urn:example:unknown", "deflate", "gzip", EncDeflate+" ", "DEFLATE")})
 	case "sigalg-nosig":
